@@ -261,12 +261,17 @@ def obligations(tier):
         ml, mc = maxlen, maxcoll
         if s.startswith('pair (list') or s.startswith('list (pair') or s.startswith('map (pair'):
             ml, mc = 1, (1 if q else 2)
+        elif not q and any(k in s for k in ('list', 'set', 'map')):
+            # thorough tier sized by wall time: collection types keep strings <= 2; only the flat ones get 3 elements
+            ml, mc = 2, (3 if s in ('list int', 'set nat') else 2)
         obs.append(Ob(f'pack/{s}', 'bvx', sym_pack, conc_pack, {'type': s, 'maxlen': ml, 'maxcoll': mc, 'truncate': trunc}, timeout=t, opts={'W': 96 if q else 256},
                       bounds=f'all values of {s}: first int leaf |v| < 2^{86 if q else 246}, further int leaves |v| < 2^13, strings/bytes <= {ml}, collections <= {mc}' + ('; every proper prefix of PACK v' if trunc else ''),
                       targets=TARGETS))
     for s in UNPACK_TYPES:
         for n in ((1, 2, 3) if q else (1, 2, 3, 4)):
-            obs.append(Ob(f'unpack-buffer/{s}/n={n}', 'bvx', sym_unpack_buffer, conc_unpack_buffer, {'type': s, 'n': n}, timeout=t, opts={'W': 64},
+            if n == 4 and s not in ('int', 'string', 'option bool'):
+                continue
+            obs.append(Ob(f'unpack-buffer/{s}/n={n}', 'bvx', sym_unpack_buffer, conc_unpack_buffer, {'type': s, 'n': n}, timeout=t if n < 4 else 3 * t, opts={'W': 64},
                           bounds=f'UNPACK {s} of 0x05 followed by every byte string of length {n}', targets=TARGETS))
     # 05 02 LLLL ...: the low byte of the outer length prefix is at offset 5; for a nested list the first inner prefix low byte is at offset 10
     for s, off in (('list nat', 5), ('list (list nat)', 5), ('list (list nat)', 10), ('pair nat nat nat nat', 5), ('list (pair nat string)', 5), ('map nat nat', 5)):
